@@ -1,5 +1,6 @@
 """helpers shared by the rules: entry-point lookup (keyed on public API items, never on
 private helper names), per-outcome views, model-init analysis."""
+import os
 import tys as T
 import trace as TR
 import exec as E
@@ -249,6 +250,180 @@ def base_atoms(p):
         else:
             out.add(a)
     return out
+
+
+def loop_range(l, loops=None):
+    """(start on entry, end) of the integer Range a loop iterates over, or None. The interpreter updates only the start
+    of a Range it models exactly, so the loop records either the whole Range (older shape) or its `.start` with the end
+    as the `next` events see it."""
+    whole = [v for k, v in l["entry_values"].items() if isinstance(v, Agg) and (v.name or "").endswith("Range")]
+    if len(whole) == 1 and isinstance(whole[0].fields[0], IntV) and isinstance(whole[0].fields[1], IntV):
+        return whole[0].fields[0].poly(), whole[0].fields[1].poly()
+    if whole:
+        return None
+    st0 = [v for k, v in l["entry_values"].items() if isinstance(v, IntV) and k.split("~")[0].endswith((".start", ".0"))]
+    ends = [e.pointees[0] for c in l["cont"] for e in TR.flatten_events(c["trace"], loops)
+            if e.kind == "call" and TR.classify(e).cls == "NEXT" and e.pointees and isinstance(e.pointees[0], Agg)
+            and (e.pointees[0].name or "").endswith("Range")]
+    if len(st0) == 1 and ends and all(isinstance(x.fields[1], IntV) and x.fields[1].poly() == ends[0].fields[1].poly() for x in ends):
+        return st0[0].poly(), ends[0].fields[1].poly()
+    return None
+
+
+def known_atoms_violated(f):
+    """does a comparison atom that the path has decided evaluate the other way under what is known now? (an atom over
+    an if-then-else value - a wrapping subtraction, a min - is decided before the facts that fix its inner case)"""
+    from poly import atom_pred_poly
+    for a, v in list(f.known.items()):
+        if a[0] not in ("ge", "eq"):
+            continue
+        inner = decide_atoms(f, atom_pred_poly(a))
+        if a[0] == "ge":
+            lo, hi = inner.range(f)
+            t = 1 if (lo is not None and lo >= 0) or f.entails_ge0(inner) is not None else (0 if (hi is not None and hi < 0) or f.entails_ge0(-inner - 1) is not None else None)
+        else:
+            t = 1 if (f.entails_ge0(inner) is not None and f.entails_ge0(-inner) is not None) else \
+                (0 if (f.entails_ge0(inner - 1) is not None or f.entails_ge0(-inner - 1) is not None) else None)
+        if t is not None and t != v:
+            return True
+    return False
+
+
+def contradictory(f, limit=2000):
+    """do up to three of the linear facts add up to something whose range (from the types of the inputs) is negative?"""
+    import itertools
+    lin = list(f.lin)[:24]
+    n = 0
+    for k in (1, 2, 3):
+        for combo in itertools.combinations(lin, k):
+            n += 1
+            if n > limit:
+                return False
+            t = combo[0]
+            for x in combo[1:]:
+                t = t + x
+            _lo, hi = t.range(f)
+            if hi is not None and hi < 0:
+                return True
+    return False
+
+
+def equivalent_conditions(p, q, max_atoms=14, budget=6000):
+    """are two 0/1 polynomials over comparison atoms of the inputs the same condition? Decided by a case split on the
+    atoms, innermost first (an atom whose own polynomial is free of boolean atoms is assumed true / false in a Facts
+    object, which rejects contradictory combinations by linear reasoning; its value is substituted into the rest).
+    True only if p and q agree on every leaf that Facts cannot refute. A leaf that Facts fails to refute although it
+    is infeasible makes the answer False (undecided = not equal): sound for a rule that fails closed."""
+    from poly import is_bool_atom, atom_pred_poly
+    from state import Facts
+    if p == q:
+        return True
+    count = [0]
+
+    def go(f, a_, b_):
+        count[0] += 1
+        if count[0] > budget:
+            return False
+        a_, b_ = f.simplify(a_), f.simplify(b_)
+        d = a_ - b_
+        if not d.terms:
+            return True
+        ats = [x for x in (a_.atoms() | b_.atoms()) if is_bool_atom(x)]
+        if not ats:
+            if a_ != b_ and os.environ.get("AIM_DEBUG_EQUIV"):
+                print("EQUIV leaf differs:", repr(a_), "vs", repr(b_), "known", {repr(k)[:70]: v for k, v in f.known.items()}, "lin", [repr(x)[:80] for x in f.lin][:12])
+            return a_ == b_
+        if len(ats) > max_atoms:
+            return False
+        # innermost first: a comparison atom whose polynomial has no boolean atom inside (possibly nested in another
+        # atom: min(w, h) == 0 is [ [h - w >= 0]*h - .. >= 0 ]); else a plain boolean / variant atom
+        def inner_atoms(x, out, depth=0):
+            if depth > 4:
+                return
+            for y in atom_pred_poly(x).atoms():
+                if is_bool_atom(y):
+                    out.add(y)
+                    if y[0] in ("ge", "eq"):
+                        inner_atoms(y, out, depth + 1)
+        allb = set(ats)
+        for x in ats:
+            if x[0] in ("ge", "eq"):
+                inner_atoms(x, allb)
+        ready = [x for x in allb if x[0] in ("ge", "eq") and not any(is_bool_atom(y) for y in atom_pred_poly(x).atoms())]
+        if not ready:
+            ready = [x for x in allb if x[0] not in ("ge", "eq")]
+        if not ready:
+            return False
+        x = sorted(ready, key=repr)[0]
+
+        def deep(pl, val, depth=0):
+            # substitute x := val, also inside comparison atoms (which are rebuilt from their new polynomial)
+            from poly import ge0, eq0
+            m = {}
+            for y in pl.atoms():
+                if y == x:
+                    m[y] = val
+                elif depth < 4 and y[0] in ("ge", "eq") and is_bool_atom(y):
+                    inn = atom_pred_poly(y)
+                    new_in = deep(inn, val, depth + 1)
+                    if new_in != inn:
+                        m[y] = ge0(new_in) if y[0] == "ge" else eq0(new_in)
+            return pl.subst(m) if m else pl
+        for val in (1, 0):
+            f2 = f.copy()
+            if not f2.assume(Poly.atom(x), val):
+                continue        # this combination is contradictory
+            if contradictory(f2):
+                continue        # ... or becomes so by adding up to three facts and looking at the ranges of the inputs
+            if not go(f2, deep(a_, val), deep(b_, val)):
+                return False
+        return True
+    return go(Facts(), p, q)
+
+
+def same_over_variants(p, q, limit=4096):
+    """are two polynomials equal as functions? Decided when they are syntactically equal, or when they become so under
+    every assignment of the enum-variant atoms and booleans they depend on (one variant per enum value, or the one
+    without an atom); comparison atoms over those are evaluated, every other atom stays symbolic"""
+    if p == q:
+        return True
+    import itertools
+    from poly import atom_pred_poly
+    ats = sorted(base_atoms(p) | base_atoms(q), key=repr)
+    groups, free = {}, []
+    for a in ats:
+        if a[0] == "var":
+            groups.setdefault(a[1], []).append(a)
+        elif a[0] == "b":
+            free.append(a)
+    if not groups and not free:
+        return False
+    choices = [[None] + g for g in groups.values()] + [[0, 1] for _ in free]
+    n = 1
+    for c in choices:
+        n *= len(c)
+    if n > limit:
+        return False
+    gl = list(groups.values())
+
+    def inst(x, env):
+        m = dict(env)
+        for a in x.atoms():
+            if a[0] in ("ge", "eq"):
+                iv = eval_poly(atom_pred_poly(a), env)
+                if iv is not None:
+                    m[a] = 1 if ((iv >= 0) if a[0] == "ge" else (iv == 0)) else 0
+        return x.subst(m)
+    for combo in itertools.product(*choices):
+        env = {}
+        for g, pick in zip(gl, combo[:len(gl)]):
+            for a in g:
+                env[a] = 1 if a is pick else 0
+        for a, v in zip(free, combo[len(gl):]):
+            env[a] = v
+        if inst(p, env) != inst(q, env):
+            return False
+    return True
 
 
 # ----------------------------------------------------------------------------- drawing harness
